@@ -19,7 +19,7 @@ def register(reg, prog):
     LAST = ('raw', z3.ArraySort(sort_of(K), R))
     reg.declare_class('TimeoutDict', TD, fields={'timeout': REAL, '_items': ITEMS, '_recently_accessed': Opt(RECENT),
                                                  '_timeout': Opt(Ref('TimerHandle')),
-                                                 'gh_T0': REAL, 'gh_last': LAST})
+                                                 'gh_T0': REAL, 'gh_last': LAST, 'gh_armed': BOOL})
     F = reg.classes['TimeoutDict'].fields
     reg.assume('T-LOOP/clock: a ghost clock `now`; call_later(d, f) fires exactly at now+d; between two callbacks of one '
                'TimeoutDict timer the clock lies in [T0, T0+timeout]')
@@ -38,6 +38,7 @@ def register(reg, prog):
         b = getattr(cb, 'bound', None)
         if isinstance(b, VRef) and b.cls == 'TimeoutDict':
             ex.write_field(st, b, 'gh_T0', REAL, VReal(now(st)))       # ghost: the timer is armed now
+            ex.write_field(st, b, 'gh_armed', BOOL, VBool(z3.BoolVal(True)))
         return base_call_later(ex, st, args, kw, node)
     reg.externals['Loop.call_later'] = call_later
 
@@ -63,7 +64,8 @@ def register(reg, prog):
             body = z3.Implies(z3.Select(dom, k), z3.If(z3.Select(rdom, k),
                                                        z3.And(t0 <= z3.Select(last, k), z3.Select(last, k) <= n),
                                                        z3.And(t0 - d <= z3.Select(last, k), z3.Select(last, k) <= t0)))
-            return VBool(z3.And(d > 0, armed == z3.Not(rec.is_none()),
+            really_armed = ex.read_field(st, td, 'gh_armed', BOOL).t      # ghost: a call_later of _tick is pending
+            return VBool(z3.And(d > 0, armed == z3.Not(rec.is_none()), armed == really_armed,
                                 z3.Implies(armed, z3.And(t0 <= n, n <= t0 + d, z3.ForAll([k], body))),
                                 z3.Implies(z3.Not(armed), z3.ForAll([k], z3.Not(z3.Select(dom, k))))))
 
@@ -73,12 +75,12 @@ def register(reg, prog):
         last = ex.read_field(st, td, 'gh_last', LAST).t
         ex.write_field(st, td, 'gh_last', LAST, VRaw(z3.Store(last, coerce(key, K).t, now(st))))
 
-    MOD = ['self._timeout', 'self._recently_accessed', 'dict:self._recently_accessed', 'self.gh_T0', 'self.gh_last']
+    MOD = ['self._timeout', 'self._recently_accessed', 'dict:self._recently_accessed', 'self.gh_T0', 'self.gh_last', 'self.gh_armed']
 
     reg.contract(TD + '._start_over', properties=P, requires=['self.timeout > 0'], only_raises=True,
-                 modifies=['self._timeout', 'self._recently_accessed', 'self.gh_T0'], hints={'set()': RECENT},
+                 modifies=['self._timeout', 'self._recently_accessed', 'self.gh_T0', 'self.gh_armed'], hints={'set()': RECENT},
                  ensures={'new-set': 'is_new(self._recently_accessed)',
-                          'armed-now': 'self._timeout is not None and self._recently_accessed is not None and self.gh_T0 == ghost_now()',
+                          'armed-now': 'self._timeout is not None and self._recently_accessed is not None and self.gh_T0 == ghost_now() and self.gh_armed',
                           'nothing-recent': 'forall_key_not_recent(self)'},
                  at_exit=lambda ex, s, entry, env, result: [
                      ('one-timer-for-the-timeout', B(len(evs(s, 'call_later')) == 1)),
@@ -97,7 +99,7 @@ def register(reg, prog):
 
     reg.contract(TD + '._accessed', params={'key': K}, properties=P, only_raises=True, hints={'set()': RECENT},
                  requires=['td_inv_except(self, key)', 'key in self._items', 'self.gh_last_of(key) == ghost_now()' if False else 'last_is_now(self, key)'],
-                 modifies=['self._timeout', 'self._recently_accessed', 'dict:self._recently_accessed', 'self.gh_T0'],
+                 modifies=['self._timeout', 'self._recently_accessed', 'dict:self._recently_accessed', 'self.gh_T0', 'self.gh_armed'],
                  ensures={'recent-set-kept-or-new': 'self._recently_accessed is old(self._recently_accessed) or is_new(self._recently_accessed)', 'invariant': 'td_inv(self)'})
 
     @reg.specfunc('last_is_now')
@@ -119,7 +121,8 @@ def register(reg, prog):
             body = z3.Implies(z3.And(z3.Select(dom, k), k != kk), z3.If(z3.Select(rdom, k),
                               z3.And(t0 <= z3.Select(last, k), z3.Select(last, k) <= n),
                               z3.And(t0 - d <= z3.Select(last, k), z3.Select(last, k) <= t0)))
-            return VBool(z3.And(d > 0, armed == z3.Not(rec.is_none()),
+            really_armed = ex.read_field(st, td, 'gh_armed', BOOL).t
+            return VBool(z3.And(d > 0, armed == z3.Not(rec.is_none()), armed == really_armed,
                                 z3.Implies(armed, z3.And(t0 <= n, n <= t0 + d, z3.ForAll([k], body))),
                                 z3.Implies(z3.Not(armed), z3.ForAll([k], z3.Implies(k != kk, z3.Not(z3.Select(dom, k)))))))
 
@@ -173,10 +176,12 @@ def register(reg, prog):
         t0 = ex.read_field(st, td, 'gh_T0', REAL).t
         d = ex.read_field(st, td, 'timeout', REAL).t
         st.assume(now(st) == t0 + d)          # T-LOOP: the callback runs exactly when due
+        # ... and the pending call is thereby used up (ghost update applied after the preconditions)
+        return lambda ex_, st_, env_: ex_.write_field(st_, env_['self'], 'gh_armed', BOOL, VBool(z3.BoolVal(False)))
 
     reg.contract(TD + '._tick', properties=P, only_raises=True, setup=tick_setup,
                  requires=['td_inv(self)', 'self._timeout is not None'],
-                 modifies=['self._items', 'self._timeout', 'self._recently_accessed', 'self.gh_T0'],
+                 modifies=['self._items', 'self._timeout', 'self._recently_accessed', 'self.gh_T0', 'self.gh_armed'],
                  hints={'set()': RECENT}, at_exit=tick_exit, ensures={'invariant': 'td_inv(self)'})
 
     # ------------------------------------------------------ request assembly
@@ -309,7 +314,7 @@ def register(reg, prog):
                          'ContinueException': 'req.opt.block1 is not None and req.opt.block1[1] and (req.opt.block1[0] == 0 or (%s and not %s and not %s))' % (HASKEY, R_MISMATCH, GAP)},
                  only_raises=True, at_exit=ft_exit,
                  modifies=['self._assemblies._timeout', 'self._assemblies._recently_accessed', 'dict:self._assemblies._recently_accessed',
-                           'self._assemblies.gh_T0', 'self._assemblies.gh_last', 'dict:self._assemblies._items',
+                           'self._assemblies.gh_T0', 'self._assemblies.gh_last', 'self._assemblies.gh_armed', 'dict:self._assemblies._items',
                            'field:payload', 'field:token', 'field:mid', 'field:block1', 'field:block2'],
                  ghost=lg_result('feed_and_take', 'self', 'req'))
 
